@@ -34,8 +34,8 @@ from mstatic.rules import util as U
 TABLE = [
     (('C08',), 'mistral.engine.policies._fail_task_if_incomplete', 'complete_task',
      []),
-    (('C04', 'C01', 'C12'), 'mistral.engine.task_handler._check_affected_tasks', 'find_indirectly_affected_task_executions',
-     []),
+    (('C04', 'C01', 'C12', 'C11'), 'mistral.engine.task_handler._check_affected_tasks', 'find_indirectly_affected_task_executions',
+     [('states.is_completed(task.task_ex.workflow_execution.state)', False), ('task.is_completed()', True)]),
     (('C04', 'C01', 'C12'), 'mistral.engine.task_handler._check_affected_tasks', 'register_operation',
      []),
     (('C04', 'C01', 'C12'), 'mistral.engine.task_handler._check_affected_tasks.<locals>._schedule_if_needed', '_schedule_refresh_task_state',
@@ -349,6 +349,10 @@ TABLE = [
 # still has to see its delayed tasks reach their final state
 STRICT = {
     ('mistral.engine.task_handler.complete_task', 'complete'),
+    # which completed tasks wake the joins behind them: every completed
+    # state (a CANCELLED or ERROR inbound task decides a join as well)
+    ('mistral.engine.task_handler._check_affected_tasks',
+     'find_indirectly_affected_task_executions'),
 }
 
 # atoms that are state tests: decided by the state-domain rules
